@@ -129,10 +129,10 @@ theorem kk_above (ls : List Nat) (L : Nat) (hall : ∀ l ∈ ls, l ≤ L) : ∀ 
 theorem codes_read_by_huffman_tree (lengths : Array Nat) (limit : Nat) (hlim : limit ≤ 15)
     (hall : ∀ l ∈ lengths.toList, l ≤ limit) (hk : Prefix.kraft lengths.toList limit = 2 ^ limit)
     (h2 : 2 ≤ (lengths.toList.filter (· ≠ 0)).length) (hn : lengths.size ≤ 5000) :
-    ∀ j, j < lengths.size → lengths[j]! ≠ 0 → ∀ rest : List Nat, (∀ b ∈ rest, b < 2) → 15 ≤ rest.length →
+    ∀ j, j < lengths.size → lengths[j]! ≠ 0 → ∀ rest : List Nat, (∀ b ∈ rest, b < 2) →
       Huff.readSym (Huff.build lengths.toList) (Prefix.lsbBits (assignCodes lengths limit).1[j]! lengths[j]! ++ rest) =
         some (j, rest) := by
-  intro j hj hne rest hrest hlen
+  intro j hj hne rest hrest
   have hall15 : ∀ l ∈ lengths.toList, l ≤ 15 := fun l hl => by have := hall l hl; omega
   have hk15 : Prefix.kraft lengths.toList 15 = 2 ^ 15 := by
     rw [kraft_kk _ _ hall15, show 15 = limit + (15 - limit) by omega, kk_above _ _ hall, ← kraft_kk _ _ hall, hk, ← Nat.pow_add]
@@ -150,7 +150,6 @@ theorem codes_read_by_huffman_tree (lengths : Array Nat) (limit : Nat) (hlim : l
       exact Nat.mod_lt _ (by decide)
     · exact hrest b h
   have hspec := (C01.huffman_tree_is_spec lengths.toList hall15 (by simpa using hn)).2 hv _ hbits
-    (by rw [List.length_append]; omega)
   rw [hspec]
   unfold Prefix.decodeSymbol
   rw [if_neg (by omega)]
